@@ -1,3 +1,6 @@
 import AQ.Base.Basic
 import AQ.Base.RangeSet
 import AQ.Model.Stream
+import AQ.Model.Recovery
+import AQ.Model.H3Validate
+import AQ.Model.H3ValidateSpec
